@@ -5,6 +5,8 @@ mod source_files;
 pub mod watch;
 mod with_duration;
 mod write_artifacts;
+#[cfg(feature = "isographlabs_isograph_verif")]
+pub mod verif;
 
 pub use batch_compile::compile_and_print;
 pub use compiler_state::*;
